@@ -11,3 +11,5 @@ PAIRS += [_sc.pairs()["slice_split"], _sc.pairs()["span_free"]] + [p for p in _s
 PAIRS += page_common.queue_pairs()       # a page moved between queues stays in exactly one queue
 import seg_common as _sc2
 PAIRS += [_sc2.pairs()['page_clear']]      # a freed page is wiped (no stale list pointers), its span returned once, the segment counts one page less
+import spanq_common as _sq
+PAIRS += _sq.pairs()      # free-span queues: a span pushed is the first element of exactly that queue and marked free; a span deleted is unlinked, its neighbours are linked to each other, it is marked in use
